@@ -272,6 +272,19 @@ Definition merge_run (jobs : list (option stored)) (md_t : stored) (rechunk : bo
 End PerChunk.
 End Store.
 
+Arguments mkcinfo {bytes}.   Arguments ci_n {bytes}.      Arguments ci_start {bytes}.  Arguments ci_end {bytes}.
+Arguments ci_run {bytes}.    Arguments ci_first {bytes}.  Arguments ci_last {bytes}.   Arguments ci_file {bytes}.
+Arguments mkstored {bytes}.  Arguments md_dtype {bytes}.  Arguments md_kind {bytes}.   Arguments md_comp {bytes}.
+Arguments md_target {bytes}. Arguments md_chunks {bytes}. Arguments md_start {bytes}.  Arguments md_end {bytes}.
+Arguments md_ended {bytes}.  Arguments md_exc {bytes}.
+Arguments set_comp {bytes}.  Arguments set_target {bytes}. Arguments opt_set_comp {bytes}. Arguments opt_set_target {bytes}.
+Arguments info_of {bytes}.   Arguments open_md {bytes}.   Arguments close_md {bytes}.  Arguments failed_md {bytes}.
+Arguments save_stream {bytes}. Arguments read_chunk {bytes}. Arguments load_from {bytes}. Arguments load {bytes}.
+Arguments is_valid {bytes}.  Arguments lookup {bytes}.    Arguments remove {bytes}.    Arguments put {bytes}.
+Arguments move {bytes}.      Arguments visible {bytes}.   Arguments saver_trace {bytes}. Arguments transfer {bytes}.
+Arguments run_saver {bytes}. Arguments rechunker_run {bytes}. Arguments copy_run {bytes}.
+Arguments compute_chunk {bytes}. Arguments make_from {bytes}. Arguments merge_source {bytes}. Arguments merge_run {bytes}.
+
 (* ------------------------------------------------------------------ lineage serialisation
    hashablize + json.dumps: a tree of numbers (strings are numbered) and arrays; a dict is the array of its
    [key, value] pairs sorted by key.  The tokens are the characters of the JSON text at the level that
